@@ -27,12 +27,14 @@ def mult_spec(q, pred, true):
 @contract(F + "::QuantileLinearRegression._epsilon", "C05")
 @query_frame("self")
 class Epsilon(Contract):
-    variants = [False, True]
+    # targets may be stored as integers (counts, labels used as regression targets): same multipliers as for the same real numbers
+    variants = [(hw, yk) for hw in (False, True) for yk in ("real", "int")]
     inline_at_calls = True      # callers execute its (loop-free) body: their obligations stay quantifier-free
 
-    def setup(self, E, has_w):
+    def setup(self, E, v):
+        has_w, ykind = v
         n = E.size("n", 0)
-        return dict(y_true=E.nd("y", (n,)), y_pred=E.nd("p", (n,)), quantile=E.real("q"),
+        return dict(y_true=E.nd("y", (n,), ykind), y_pred=E.nd("p", (n,)), quantile=E.real("q"),
                     sample_weight=E.nd("w", (n,)) if has_w else None)
 
     def requires(self, E, a):
